@@ -177,6 +177,39 @@ Definition covered (fs : list (N * bytes)) (p : N) : bool :=
 Definition covers_all (s : bytes) (fs : list (N * bytes)) : bool :=
   forallb (fun p => covered fs (N.of_nat p)) (seq 0 (length s)).
 
+(* QUIC frames of an Initial packet as a client emits them (RFC 9000 16: variable-length integers,
+   minimal encoding; 19.1 PADDING, 19.2 PING, 19.6 CRYPTO) *)
+Definition enc_varint (n : N) : bytes :=
+  if n <? 64 then [n]
+  else if n <? 16384 then [64 + n / 256; n mod 256]
+  else if n <? 1073741824 then
+    [128 + n / 16777216; (n / 65536) mod 256; (n / 256) mod 256; n mod 256]
+  else
+    [192 + n / 72057594037927936; (n / 281474976710656) mod 256; (n / 1099511627776) mod 256;
+     (n / 4294967296) mod 256; (n / 16777216) mod 256; (n / 65536) mod 256; (n / 256) mod 256; n mod 256].
+
+Inductive qframe := QPadding (n : nat) | QPing | QCrypto (off : N) (data : bytes).
+
+Definition enc_qframe (f : qframe) : bytes :=
+  match f with
+  | QPadding n => repeat 0 n
+  | QPing => [1]
+  | QCrypto off d => [6] ++ enc_varint off ++ enc_varint (blen d) ++ d
+  end.
+
+Definition wf_qframe (f : qframe) : Prop :=
+  match f with
+  | QPadding n => (1 <= n)%nat
+  | QPing => True
+  | QCrypto off d => off < 4611686018427387904 /\ blen d < 4611686018427387904
+  end.
+Definition wf_frames (fs : list qframe) : Prop := Forall wf_qframe fs.
+
+Definition crypto_of (f : qframe) : list (N * bytes) :=
+  match f with QCrypto off d => [(off, d)] | _ => [] end.
+Definition cryptos (fs : list qframe) : list (N * bytes) := flat_map crypto_of fs.
+Definition enc_frames (fs : list qframe) : bytes := flat_map enc_qframe fs.
+
 (* ------------------------------------------------------------------ replay *)
 (* what the relay must receive: exactly the client's bytes, in order, each once *)
 Definition replay_spec (client_chunks : list bytes) : bytes := concat client_chunks.
